@@ -109,6 +109,11 @@ def c12(ctx):
              "comparison the configuration cannot decide (a line against a column) is reported")
     ordering_rule(ctx)
     units_rule(ctx, "C12.R1")
+    rep.rule("C12.R7", "a token's spelling is the slice its range covers, of the text the caller passed: Lexer::new stores its argument itself "
+             "as the buffer (and iterates over that same text) -- nothing is stripped or copied first, so offsets are offsets into the "
+             "caller's source; at every Token::new in the lexer the spelling is the result of Lexer::substr itself (no trimming or other "
+             "string operation in between), and where the range is make_range(a, b) the slice is substr(a..b) with the same a and b")
+    spelling_rule(ctx, "C12.R7")
     # ---- R2
     ml = F.fn(LEX + "match_loop")
     writes = {}
@@ -247,6 +252,69 @@ def c12(ctx):
                 rep.ob("C12.R4", "provenance::%s::%s#%d" % (fn.path, fname, bi), ok,
                        "" if ok else "%s builds a LexResult whose %s %s" % (fn.path, fname, why), fn.loc(s["line"]), how="literal or '\\n'-guarded counter")
     rep.floor("C12.R4", n4, 5, "LexResult constructions")
+
+
+def spelling_rule(ctx, rule):
+    F, rep = ctx.F, ctx.rep
+    new = F.fn(LEX + "new")
+    if new is None:
+        rep.fail(rule, "anchor::new", "Lexer::new not found")
+    else:
+        rep.analysed(new)
+        ok, why = False, "Lexer::new builds no Lexer value"
+        adt = F.adts.get(LEXER)
+        fields = [f["name"] for f in adt["variants"][0]["fields"]] if adt else []
+        for bi, si, s in new.assigns():
+            a = s["rv"].get("agg")
+            if isinstance(a, dict) and a.get("adt") == LEXER and "buf" in fields:
+                o = s["rv"]["ops"][fields.index("buf")]
+                srcs = {d for d, p in origins(new, o)}
+                ok = srcs == {("param", 1)}
+                why = "" if ok else "Lexer::new does not store its argument itself as the buffer (it stores %s): offsets, columns and spellings are then relative to another text than the caller's" % sorted(
+                    (new.term(d[1])["callee"].get("name") if d[0] == "call" else d[0]) for d in srcs)
+                if ok and "char_indices" in fields:
+                    ci = s["rv"]["ops"][fields.index("char_indices")]
+                    cs = [d for d, p in origins(new, ci)]
+                    ok = len(cs) == 1 and cs[0][0] == "call" and new.term(cs[0][1])["callee"].get("name") == "char_indices" and \
+                        {d for d, p in origins(new, new.term(cs[0][1])["args"][0])} == {("param", 1)}
+                    why = "" if ok else "Lexer::new does not iterate over the characters of the buffer it stores"
+        rep.ob(rule, "buffer-is-the-argument", ok, why, new.loc(), how="Lexer { buf, char_indices: buf.char_indices(), .. }")
+    n = 0
+    for fn, bi, t in common.who_calls(F, lambda c: (c.get("def") or "") == "frontend::lexer::Token::<'a>::new"):
+        if not in_lexer(fn):
+            continue
+        n += 1
+        rep.analysed(fn)
+        top = common.top_fn(F, fn)
+        b1, o1 = common.upvar_resolve(F, fn, t["args"][1])
+        srcs = list(origins(b1, o1))
+        bad = sorted({(b1.term(d[1])["callee"].get("name") if d[0] == "call" else d[0]) for d, p in srcs
+                      if not (d[0] == "call" and callee_def(b1.term(d[1])) == LEX + "substr")})
+        ok = bool(srcs) and not bad
+        why = "" if ok else "%s builds a token whose spelling is not the slice Lexer::substr returned (it comes from %s): the spelling and the range no longer describe the same characters" % (top.path.rsplit("::", 1)[-1], bad or "nothing")
+        key = "spelling-is-the-slice::%s" % top.path.rsplit("::", 1)[-1]
+        if ok:
+            # where the range is make_range(a, b): the slice is substr(a..b)
+            b2, o2 = common.upvar_resolve(F, fn, t["args"][2])
+            rs = list(origins(b2, o2))
+            subs = [d[1] for d, p in srcs]
+            if len(rs) == 1 and rs[0][0][0] == "call" and callee_def(b2.term(rs[0][0][1])) == LEX + "make_range" and len(subs) == 1:
+                mr = b2.term(rs[0][0][1])
+                rng = None
+                for d, p in origins(b1, b1.term(subs[0])["args"][1]):
+                    if d[0] == "agg":
+                        st = b1.stmts(d[1])[d[2]]
+                        if isinstance(st["rv"]["agg"], dict) and st["rv"]["agg"].get("adt") == "std::ops::Range":
+                            rng = st["rv"]["ops"]
+                if rng is not None:
+                    def roots(b_, o_):
+                        bb_, oo_ = common.upvar_resolve(F, b_, o_)
+                        return frozenset((bb_.path, d, p) for d, p in origins(bb_, oo_))
+                    same = roots(b2, mr["args"][1]) == roots(b1, rng[0]) and roots(b2, mr["args"][2]) == roots(b1, rng[1])
+                    if not same:
+                        ok, why = False, "%s builds a token whose range is make_range(a, b) but whose spelling is a slice with other bounds" % top.path.rsplit("::", 1)[-1]
+        rep.ob(rule, key, ok, why, fn.loc(t["line"]), how="spelling <- substr(a..b), range <- make_range(a, b)")
+    rep.floor(rule, n, 3, "Token::new call sites in the lexer")
 
 
 def _refs_field(fn, operand, field):
